@@ -94,14 +94,15 @@ func grammarFor(tier string) *Grammar {
 	g.Roots = []string{"query", "mutation"}
 	g.VarModes = []int{VarGiven, VarDefault, VarAbsent, VarNull}
 	g.Fields = map[string][]string{
-		"Query": {"str", "arg", "t", "targ", "node", "u", "rep", "__typename"}, "Mutation": {"m1", "m3"},
+		"Query": {"str", "arg", "t", "targ", "node", "u", "rep", "__typename", "__schema", "__type"}, "Mutation": {"m1", "m3"},
+		"__Schema": {"__typename", "queryType"}, "__Type": {"name"},
 		"Rep": {"old", "rows", "newFoo", "new_foo"}, "Row": {"id"},
 		"T": {"id", "name", "kid", "peer", "u", "__typename"}, "S": {"id", "peer"}, "Node": {"id", "__typename"},
 		"Named": {"name"}, "Deep": {"peer"}, "U": {"__typename"}}
 	g.Alias = map[string]bool{"Query.str": true, "T.id": true}
 	g.ArgForms = []int{ArgNone, ArgLit, ArgVar, ArgBoth, ArgNeg, ArgNull}
 	g.TargForms = []int{ArgNone, ArgLit, ArgVar}
-	g.Conds = []string{"T", "S", "Node", "Named", "Deep", "U"}
+	g.Conds = []string{"Query", "T", "S", "Node", "Named", "Deep", "U"}
 	return g
 }
 
@@ -213,6 +214,7 @@ func (w *worker) newSession(es graphql.ExecutableSchema, fixed *int, dynamic boo
 		cache = w.cache
 	}
 	exec.SetQueryCache(cache)
+	exec.Use(extension.Introspection{}) // so that __schema / __type selections really execute
 	switch {
 	case fixed != nil:
 		exec.Use(extension.FixedComplexityLimit(*fixed))
@@ -372,6 +374,7 @@ func (w *worker) runHTTPCtx(reqCtx context.Context, es graphql.ExecutableSchema,
 	srv := handler.New(es)
 	srv.AddTransport(transport.POST{})
 	srv.SetQueryCache(w.cache)
+	srv.Use(extension.Introspection{})
 	if limit != nil {
 		// the per-request form of the extension (the executor path uses FixedComplexityLimit)
 		l := *limit
@@ -1075,7 +1078,9 @@ func main() {
 		j := -1
 		cfg.Grammar.Enumerate(size, func(op *Op) {
 			j++
-			mine := j%*shards == *shard
+			// multiplicative hash of the index: plain j % shards lines up with the periods of the
+			// enumeration (argument forms, aliases) and gives very uneven shards
+			mine := int((uint32(j)*2654435761)>>12)%*shards == *shard
 			if mine {
 				res.Counts["operations_generated"]++
 			}
